@@ -522,7 +522,83 @@ def stub_tables():
     out += [",\n".join("  ⟨.%s, \"%s\", [%s], [%s]⟩" % (c, n, ", ".join("." + x for x in p), ", ".join("." + x for x in r)) for c, n, p, r in rows), "]", "", "end MV", ""]
     return "\n".join(out), {"rows": len(rows)}
 
-TABLES = {"StubTables": stub_tables, "OpTables": op_tables, "ClassTables": class_tables, "LexTables": lex_tables, "CoreTables": core_tables, "ConvertTables": convert_tables, "AnnotateTables": annotate_tables}
+
+# ------------------------------------------------------------------------------------------------
+# Names the generate/check stages recognise by spelling (C15)
+# ------------------------------------------------------------------------------------------------
+def name_tables():
+    def consts_of(rel):
+        return dict(re.findall(r'pub const ([A-Z_]+): &str = "([^"]*)";', read(rel)))
+    fpy, fmb = consts_of("src/check/context/function/python.rs"), consts_of("src/check/context/function/mod.rs")
+    cpy, cmb = consts_of("src/check/context/clss/python.rs"), consts_of("src/check/context/clss/mod.rs")
+    d = read("src/generate/convert/definition.rs")
+    m = re.search(r"Core::Id \{ ref lit, \.\. \} => match lit\.as_str\(\) \{(.*?)\n\s*\},", d, re.S)
+    if not m:
+        raise TranslateError("definition.rs: the match on the function identifier was not found")
+    fun_arms, default_seen = [], False
+    for pat, res in re.findall(r"\n\s*([^\n=]+?) => String::from\(([^)]*)\),", m.group(1)):
+        pat, res = pat.strip(), res.strip()
+        if re.fullmatch(r"[a-z_]+", pat):
+            if res != pat:
+                raise TranslateError(f"definition.rs: default arm maps {pat} to {res}")
+            default_seen = True
+            continue
+        if pat.startswith('"'):
+            key = rust_str(pat[1:-1])
+        elif pat.startswith("function::python::"):
+            key = fpy.get(pat.split("::")[-1])
+        elif pat.startswith("function::"):
+            key = fmb.get(pat.split("::")[-1])
+        else:
+            key = None
+        if key is None or not res.startswith('"'):
+            raise TranslateError(f"definition.rs: cannot resolve function-name arm {pat} => {res}")
+        fun_arms.append((key, rust_str(res[1:-1])))
+    if not default_seen:
+        raise TranslateError("definition.rs: function-name match has no identity default arm")
+    body = block_after(read("src/check/context/clss/mod.rs"), r"pub fn concrete_to_python\(name: &str\) -> String \{", "concrete_to_python")
+    ty_arms, default_seen = [], False
+    for pat, res in re.findall(r"\n\s*([A-Za-z_:]+) => String::from\(([^)]*)\),", body):
+        if re.fullmatch(r"[a-z_]+", pat):
+            default_seen = res == pat
+            continue
+        if pat not in cmb or not res.startswith("python::") or res.split("::")[-1] not in cpy:
+            raise TranslateError(f"clss/mod.rs: cannot resolve concrete_to_python arm {pat} => {res}")
+        ty_arms.append((cmb[pat], cpy[res.split("::")[-1]]))
+    if not default_seen or len(ty_arms) < 10:
+        raise TranslateError("clss/mod.rs: concrete_to_python arms not understood")
+    b = read("src/check/constrain/constraint/builder.rs")
+    fm = re.search(r"pub fn format_var_map\(var: &str, offset: &usize\) -> String \{\s*if \*offset == 0_usize \{\s*String::from\(var\)\s*\} else \{\s*format!\(\"\{var\}([^{}\"]+)\{offset\}\"\)\s*\}\s*\}", b)
+    if not fm:
+        raise TranslateError("builder.rs: format_var_map is not `var` / `{var}<sep>{offset}`")
+    sep = fm.group(1)
+    # identifiers the checker recognises by spelling in a call or an expression
+    spelled = [("print", fmb.get("PRINT")), ("self", consts_of("src/check/context/arg/mod.rs").get("SELF")), ("super", fpy.get("SUPER"))]
+    if any(v is None for _, v in spelled):
+        raise TranslateError("function/mod.rs / arg/mod.rs: PRINT, SELF or SUPER constant not found")
+    # every identifier-like string literal of the stages that look at spellings (candidates for the failing-input search)
+    import glob as _glob
+    spell = set()
+    for pat in ("src/check/constrain/generate/*.rs", "src/check/constrain/unify/*.rs", "src/generate/convert/*.rs", "src/generate/*.rs", "src/check/context/**/*.rs", "src/check/name/**/*.rs", "src/parse/*.rs"):
+        for path in _glob.glob(os.path.join(REPO, pat), recursive=True):
+            src = re.sub(r"//[^\n]*", "", open(path, encoding="utf-8").read())
+            src = src.split("#[cfg(test)]")[0]
+            spell.update(re.findall(r'"([A-Za-z_][A-Za-z0-9_]{1,24})"', src))
+    out = ["-- GENERATED by tools/translate.py from generate/convert/definition.rs, check/context/clss/{mod,python}.rs, check/constrain/constraint/builder.rs — do not edit",
+           "namespace MV", "",
+           "/-- `match lit.as_str()` of the FunDef arm: spelling of a defined function ↦ emitted name (others: unchanged) -/",
+           "def funDefNameArms : List (String × String) := [" + ", ".join(f'("{a}", "{b}")' for a, b in fun_arms) + "]", "",
+           "/-- `concrete_to_python`: spelling of a type identifier ↦ emitted name (others: unchanged) -/",
+           "def typeNameArms : List (String × String) := [", ",\n".join(f'  ("{a}", "{b}")' for a, b in ty_arms), "]", "",
+           "/-- separator of `format_var_map` (`{var}<sep>{offset}` for a shadowing offset > 0) -/",
+           "def shadowSep : List Char := " + lean_chars(sep), "",
+           "/-- identifiers recognised by spelling in calls and expressions -/",
+           "def spelledNames : List (String × String) := [" + ", ".join(f'("{a}", "{b}")' for a, b in spelled) + "]", "",
+           "end MV", ""]
+    return "\n".join(out), {"rows": len(fun_arms) + len(ty_arms), "fun_arms": fun_arms, "type_arms": len(ty_arms), "type_keys": [a for a, _ in ty_arms], "shadow_sep": sep, "source_spellings": sorted(spell)}
+
+
+TABLES = {"NameTables": name_tables, "StubTables": stub_tables, "OpTables": op_tables, "ClassTables": class_tables, "LexTables": lex_tables, "CoreTables": core_tables, "ConvertTables": convert_tables, "AnnotateTables": annotate_tables}
 
 
 def main(argv):
